@@ -24,6 +24,27 @@ import weakref
 from vlib import det
 from vlib.core import FAIL, OK, SKIP, HarnessError
 
+
+def import_all():
+    """Import every reactivex submodule NOW (before any det.patched()).  reactivex imports most operator / observable
+    modules lazily inside the factory functions; a module first imported while a patch is active is not in det's scan and
+    keeps the real threading.RLock/Timer -> a contended real lock blocks the OS thread and the run hangs."""
+    import importlib
+    import pkgutil
+
+    import reactivex
+
+    for m in pkgutil.walk_packages(reactivex.__path__, "reactivex."):
+        if ".scheduler.eventloop" in m.name or ".scheduler.mainloop" in m.name or m.name.startswith("reactivex.testing"):
+            continue  # optional third-party event loops; not used by these checks
+        try:
+            importlib.import_module(m.name)
+        except ImportError:
+            pass
+
+
+import_all()
+
 RUN_KW = dict(max_steps=8000, reuse_threads=True, wall_timeout=30.0)
 
 
@@ -177,6 +198,20 @@ def sched_walks(K=3):
     return st.lists(st.integers(0, 9999), min_size=1, max_size=K).map(lambda p: {"mode": "walk", "points": p})
 
 
+def innermost_library_file(exc):
+    """Basename of the innermost reactivex file in the traceback of an escaped exception (None if none)."""
+    import os
+
+    d = det.reactivex_dir()
+    tb, last = exc.__traceback__, None
+    while tb is not None:
+        fn = tb.tb_frame.f_code.co_filename
+        if fn.startswith(d):
+            last = os.path.basename(fn) + ":" + tb.tb_frame.f_code.co_name
+        tb = tb.tb_next
+    return last
+
+
 def emission_overlap(res, nprog):
     """True if some program thread's emission (det.log('emit', ...) .. det.log('emit-ret', ...)) had an event of a
     different thread strictly inside it.  Events are (step, tid, payload)."""
@@ -199,7 +234,7 @@ def drive(case, factory, judge, *, culprit, kw=None, nontrivial=None, classes=No
     case["sched"] = {"mode": "all", "K": k[, "slice": [i, m]]} | {"mode": "walk", "points": [ints]}
                   | {"mode": "exact", "points": [[step, tid], ...]}
     factory() -> (threads, ctx)            builds fresh objects (call fresh_thread_state() first)
-    judge(ctx, res) -> None | (clause, detail)
+    judge(ctx, res) -> None | (clause, detail) | (clause, detail, culprit)      signature = "clause|culprit"
     nontrivial(ctx, res) -> bool           per run; a case is non-trivial if one of its runs is
     classes(ctx, res) -> list[str]         evidence labels of the last run
     """
@@ -209,18 +244,22 @@ def drive(case, factory, judge, *, culprit, kw=None, nontrivial=None, classes=No
     lvl = lg.level
     lg.setLevel(logging.ERROR)
 
+    c0 = [0]
+
     def verdict(s, res, ctx):
         bad = judge(ctx, res)
         if bad is None:
             return None
+        det._clock.us = c0[0]
         res2, ctx2 = det.run_checked(factory, s, **kw)
         bad2 = judge(ctx2, res2)
         if bad2 is None or bad2[0] != bad[0]:
             raise HarnessError(f"verdict not reproducible for schedule {s}: {bad} vs {bad2}")
-        return bad[0], f"{bad[1]}; exact schedule={s}; {res2.describe()}; case={case}"
+        return bad[0], f"{bad[1]}; exact schedule={s}; {res2.describe()}; case={case}", (bad[2] if len(bad) > 2 else culprit)
 
     try:
         with det.patched():
+            c0[0] = det._clock.us  # every run of the case starts at the same fake instant
             if sched["mode"] == "exact":
                 runs = [(list(map(list, sched["points"])),) + _run(factory, sched["points"], kw)]
             elif sched["mode"] == "all":
@@ -233,6 +272,7 @@ def drive(case, factory, judge, *, culprit, kw=None, nontrivial=None, classes=No
             last = None
             for s, res, ctx in runs:
                 if n == 0:
+                    det._clock.us = c0[0]
                     res_b, _ = det.run_checked(factory, s, **kw)  # determinism of the first run, incl. pooled-thread state
                     if res_b.fingerprint() != res.fingerprint():
                         raise HarnessError(f"first run not deterministic: {res.describe()} vs {res_b.describe()}")
@@ -242,7 +282,7 @@ def drive(case, factory, judge, *, culprit, kw=None, nontrivial=None, classes=No
                     continue
                 v = verdict(s, res, ctx)
                 if v:
-                    return FAIL(f"{v[0]}|{culprit}", v[1], classes=[sched["mode"]])
+                    return FAIL(f"{v[0]}|{v[2]}", v[1], classes=[sched["mode"]])
                 nt += bool(nontrivial(ctx, res)) if nontrivial else 0
                 last = (ctx, res)
             if last is None:
